@@ -193,8 +193,8 @@ CHECKS = {
              'version with calls that name their version probed after every execution) '
              '(forced collision on one version, and mixed version/level variants) are executed under every schedule with at '
              'most 2 preemptions (small x small), 1 preemption (small/medium x medium, 3 threads) and both serial orders '
-             '(large bodies) in the quick tier, ~470,000 complete executions; thorough raises the bounds (3 / 1 at bytecode '
-             'granularity in the shared-state functions / 1 for large bodies at shared-touching lines). Every thread must observe '
+             '(large bodies) in the quick tier, ~470,000 complete executions; thorough raises the bounds (small pairs: 3 preemptions at line granularity and 2 at bytecode '
+             'granularity in the shared-state functions; 1 for large bodies at shared-touching lines). Every thread must observe '
              'exactly what the same call observes alone, and the fingerprint of every module global, module-level container and '
              'class-level data attribute of the library (and a digest of the tables) must be unchanged after every execution.',
         note='trusted: CPython (one bytecode is atomic), stdlib internals atomic, import lock; <=3 threads; preemption bounds as stated'),
